@@ -260,6 +260,63 @@ Definition handle_incoming (local remote : bytes) (s : stream) : hres :=
   | Panic => HPanic
   end.
 
+(* ---- several streams on one bus ----
+   HandleIncomingStream looks the handler up with the directive
+   HandleMountedStream(pid, local, remote).  The controller bus de-duplicates:
+   a new directive that IsEquivalent to a live one is merged into it and is
+   served by the resolvers (handlers) of the live instance; instances stay
+   alive while referenced and for the dispose delay afterwards.  IsEquivalent
+   of HandleMountedStream compares all three fields (triple_eqb; tied to
+   link/handle-mounted-stream.go by the harness). *)
+Definition triple : Type := (bytes * bytes * bytes)%type.
+
+Definition triple_eqb (a b : triple) : bool :=
+  let '(p1, l1, r1) := a in let '(p2, l2, r2) := b in
+  bytes_eqb p1 p2 && bytes_eqb l1 l2 && bytes_eqb r1 r2.
+
+(* the live instance that serves a lookup of t, and the live set afterwards *)
+Definition bus_lookup (live : list triple) (t : triple) : triple * list triple :=
+  match find (triple_eqb t) live with
+  | Some t' => (t', live)
+  | None => (t, live ++ [t])
+  end.
+
+Inductive bev :=
+| Arrive (de : bool) (local remote : bytes) (s : stream)   (* a stream arrives on a link (local, remote) *)
+| Expire (t : triple).                                      (* a lookup instance is disposed *)
+
+Inductive bobs :=
+| Served (own served : triple) (rest : bytes)   (* own: the stream's (pid, local, remote); served: the lookup whose handler got it *)
+| Rejected (k : nat)
+| BPanic.
+
+Fixpoint bus_run (live : list triple) (evs : list bev) : list bobs :=
+  match evs with
+  | [] => []
+  | Expire t :: r => bus_run (filter (fun x => negb (triple_eqb t x)) live) r
+  | Arrive de l rm s :: r =>
+      match handle_incoming_de de l rm s with
+      | Dispatch pid l' r' rest =>
+          let '(sv, live') := bus_lookup live (pid, l', r') in
+          Served (pid, l', r') sv rest :: bus_run live' r
+      | Closed k => Rejected k :: bus_run live r
+      | HPanic => BPanic :: bus_run live r
+      end
+  end.
+
+(* every stream on its own: what bus_run is proved to equal *)
+Fixpoint bus_spec (evs : list bev) : list bobs :=
+  match evs with
+  | [] => []
+  | Expire _ :: r => bus_spec r
+  | Arrive _ l rm s :: r =>
+      match handle_incoming l rm s with
+      | Dispatch pid _ _ rest => Served (pid, l, rm) (pid, l, rm) rest :: bus_spec r
+      | Closed k => Rejected k :: bus_spec r
+      | HPanic => BPanic :: bus_spec r
+      end
+  end.
+
 (* the same as a function of the data alone (no chunking): what the proofs show
    read_header computes for every chunking *)
 Definition parse_header (D : bytes) : outcome (bytes * bytes) :=
